@@ -528,6 +528,9 @@ func (p *pathCtx) decideProduct(c *term, s []int) (bool, bool) {
 			return false, false
 		}
 	}
+	if p.tt.sizeOf(c, 4000)*size > 6000000 {
+		return false, false // enumeration would cost more than a solver query
+	}
 	env := map[int]uint64{}
 	p.pev.env = env
 	sawT, sawF := false, false
